@@ -15,21 +15,21 @@ import (
 
 // Opts describes one generated tree.
 type Opts struct {
-	N       int     // tips
-	Shape   string  // random | caterpillar | balanced | star | broom
-	RootDeg int     // 2 = rooted, 3 = unrooted, >3 = multifurcating root; 0 = choose
-	MultiP  float64 // probability that an inner node groups more than two items
-	Lens    string  // all | none | mixed
-	LenCls  string  // float class of lengths (see Float)
-	SupP    float64 // probability of a support on an inner branch
-	SupCls  string
-	PValP   float64 // probability of a p-value given a support
+	N          int     // tips
+	Shape      string  // random | caterpillar | balanced | star | broom
+	RootDeg    int     // 2 = rooted, 3 = unrooted, >3 = multifurcating root; 0 = choose
+	MultiP     float64 // probability that an inner node groups more than two items
+	Lens       string  // all | none | mixed
+	LenCls     string  // float class of lengths (see Float)
+	SupP       float64 // probability of a support on an inner branch
+	SupCls     string
+	PValP      float64 // probability of a p-value given a support
 	InnerNameP float64 // probability that an unsupported inner node is named
 	RootNameP  float64
-	Names   string  // simple | hostile
-	NodeComP float64 // probability of comments on a node
-	EdgeComP float64 // probability of one comment on a branch that has a length
-	SingleP float64 // probability of wrapping a node into a single-child inner node
+	Names      string  // simple | hostile
+	NodeComP   float64 // probability of comments on a node
+	EdgeComP   float64 // probability of one comment on a branch that has a length
+	SingleP    float64 // probability of wrapping a node into a single-child inner node
 }
 
 // Sizes is the ladder of tip counts.
